@@ -244,6 +244,24 @@ def gen_c02(tier, seed):
     for i in range(8 if tier == "quick" else 100):
         scens.append({"id": sid("C02", "pfx", i), "props": ["C02"], "mode": "clean", "tags": ["prefix-family"],
                       "steps": prefix_history(rng, nsteps=rng.choice([2, 3]), observe="restore_all")})
+    # "asking for the latest complete version selects the newest of them": arrangements of complete,
+    # interrupted, head-less and deleted versions (gaps in the ids), written in the documented format
+    # by the harness, as any history of backups, kills and deletes may leave them
+    universe = ["/a", "/a/x", "/b", "/c"]
+    for i in range(120 if tier == "quick" else 2000):
+        ids = sorted(rng.sample(range(0, 8), rng.randrange(1, 6)))
+        lay = []
+        for _ in ids:
+            st = rng.choice(["incomplete", "complete", "complete", "nohead", "incomplete"])
+            sel = [j + 1 for j in range(len(universe)) if rng.random() < 0.6]
+            if st == "incomplete":
+                sel = sel[:rng.randrange(0, len(sel) + 1)]
+            lay.append({"st": st, "hunks": [sel[k:k + 2] for k in range(0, len(sel), 2)] if st != "nohead" else [], "off": 0})
+        base = c08_scenario(sid("C02", "sel", i), lay, universe, ids, ["selection"])
+        steps = [base["steps"][0], {"op": "versions"}, {"op": "restore", "band": -1}]
+        for b in ids[-2:]:
+            steps.append({"op": "restore", "band": b})
+        scens.append({"id": sid("C02", "sel", i), "props": ["C02"], "mode": "clean", "no_create": True, "tags": ["selection"], "steps": steps})
     return scens
 
 
@@ -318,6 +336,16 @@ def gen_c14(tier, seed):
 AFTER_CRASH = [{"op": "versions"}, {"op": "list_all"}, {"op": "restore_all"}, {"op": "validate"}]
 
 
+def filtered_reads(tree):
+    """Listings of the newest (possibly interrupted) version restricted to a directory / with a
+    directory excluded: the stitched listing under a filter."""
+    dirs = [path_str(nd["p"]) for nd in tree if nd["p"] and nd["k"] == "Dir"][:2]
+    out = []
+    for d in dirs:
+        out += [{"op": "list", "band": -2, "subtree": d}, {"op": "list", "band": -2, "excl": [d]}]
+    return out
+
+
 @check("C03", "model_checking", "TLA+ spec + TLC (every pc of the backup actor x clean/empty-file crash) + crash-point enumeration on the real code, every intermediate state judged by the spec's monitors")
 def gen_c03(tier, seed):
     rng = random.Random(seed * 1000 + 3)
@@ -343,7 +371,7 @@ def gen_c03(tier, seed):
                 steps += [{"op": "tree", "tree": mut(rng, t0, maxlen=8)}, bk(o, crash_at=rng.choice([5, 6]))]
         steps += [{"op": "tree", "tree": t1},
                   {"op": "sweep", "base": bk(o), "mode": "crash_both", "sample": 0 if tier != "quick" else 24, "seed": seed * 100 + i,
-                   "then": AFTER_CRASH + [bk(o), {"op": "restore", "band": -1}]}]
+                   "then": AFTER_CRASH + (filtered_reads(t1) if prev != "none" else []) + [bk(o), {"op": "restore", "band": -1}]}]
         scens.append({"id": sid("C03", prev, i), "props": ["C03"], "mode": "clean", "tags": ["crash", prev], "steps": steps})
     return scens
 
@@ -461,12 +489,25 @@ def gen_c05(tier, seed):
         elif kind == "plain":
             steps += [base, {"op": "restore_all"}, {"op": "validate"}, {"op": "delete", "bands": [], "dry": False}, {"op": "restore_all"}]
         elif kind == "crash":
+            # a kill before every verb, and (torn) kills inside the recursive removal of a version's
+            # directory that leave an arbitrary subset of its files; afterwards the stale lock is
+            # broken by a gc, and a new backup stitches over whatever is left
+            after = [{"op": "restore_all"}]
+            if i % 4 == 2:
+                after += [{"op": "delete", "bands": [], "dry": False, "break_lock": True}, {"op": "restore_all"},
+                          bk(rng.choice(OPTS_POOL[:5])), {"op": "restore_all"}]
             steps.append({"op": "sweep", "base": base, "mode": "crash", "sample": 0 if tier != "quick" else 20, "seed": seed * 100 + i,
-                          "then": [{"op": "restore_all"}]})
+                          "torn": 2 if tier == "quick" else 5, "then": after})
         else:
-            steps.append({"op": "sweep", "base": base, "mode": "fail", "verbs": ["read", "list_dir", "metadata"],
-                          "kinds": ["NotFound", "PermissionDenied", "Other"], "sample": 0 if tier != "quick" else 20, "seed": seed * 100 + i,
-                          "then": [{"op": "restore_all"}]})
+            # a failing read while working out what is referenced (the statement's clause), and -- every
+            # other scenario -- a failing verb of any kind, removals included: whatever the delete then
+            # reports, what is left must still restore
+            sw = {"op": "sweep", "base": base, "mode": "fail",
+                  "kinds": ["NotFound", "PermissionDenied", "Other"], "sample": 0 if tier != "quick" else 24, "seed": seed * 100 + i,
+                  "then": [{"op": "restore_all"}]}
+            if (i // 8) % 2 == 0:
+                sw["verbs"] = ["read", "list_dir", "metadata"]
+            steps.append(sw)
         scens.append({"id": sid("C05", kind, i), "props": ["C05"], "mode": "clean", "tags": [kind, fam], "steps": steps})
     return scens
 
@@ -518,6 +559,13 @@ def gen_c06(tier, seed):
     for i in range(n):
         steps, o, nb = conc_archive(rng)
         dele = rng.choice([[0], [0], [], [nb - 1], list(range(nb))])
+        if i % 6 == 5:
+            # no version yet (a new archive, or every version deleted): the gc's baseline is "no band"
+            if rng.random() < 0.5:
+                steps, dele = [steps[-1]], []
+            else:
+                steps = steps[:-1] + [{"op": "delete", "bands": list(range(nb)), "dry": False}, steps[-1]]
+                dele = []
         steps.append({"op": "conc_sweep",
                       "actors": [bk(o, actor="bk"), {"op": "delete", "bands": dele, "actor": "gc"}],
                       "preemptions": 2 if tier == "quick" or i % 4 else 3,
@@ -1056,7 +1104,7 @@ def has_op(s, name):
 
 NONTRIVIAL = {
     "C01": (nontrivial_c01, "distinct scenario digests whose tree has >= 3 nodes including a non-empty file"),
-    "C02": (lambda s: sum(1 for st in s["steps"] if st["op"] == "backup") >= 2, "distinct histories with at least two backups"),
+    "C02": (lambda s: sum(1 for st in s["steps"] if st["op"] == "backup") >= 2 or has_op(s, "layout"), "distinct histories with at least two backups, or arrangements of complete / interrupted / deleted versions from which the latest complete one is selected"),
     "C03": (lambda s: has_op(s, "sweep"), "distinct scenarios with a crash-point sweep (each sweep enumerates the storage verbs of the real run; counted per scenario, injected runs are reported as injections)"),
     "C04": (lambda s: has_op(s, "sweep") or any(st.get("fail_p") for st in s["steps"]), "distinct scenarios with at least one injected storage fault plan"),
     "C05": (lambda s: has_op(s, "delete") or has_op(s, "sweep"), "distinct histories ending in a delete/gc (dry, real, crash sweep or failing-read sweep)"),
@@ -1081,7 +1129,7 @@ TRUST = ("Trusted: TLC; the harness's independent decoder (snap, serde_json, bla
          "sequentially consistent. Toy-scale options (block sizes of a few bytes) drive the same code paths as production sizes.")
 
 # checks whose traces are also followed against the reference programs (sequential scenarios)
-PROTO_PROPS = {"C01", "C02", "C03", "C04", "C05", "C13", "C14"}
+PROTO_PROPS = {"C01", "C02", "C03", "C04", "C05", "C13", "C14", "C15", "C18", "C12"}
 
 MANIFEST_TEXT = {
     "C01": dict(ref="DESIGN.md 7 C01", note=TRUST,
@@ -1182,12 +1230,14 @@ _DEEP = ("MC_Conserve.tla", "MC_Conserve_deep.cfg", 3000)
 # everything at once (3 trees, 3 settings, 5 backups, 3 deletes, kills, 2 faults, concurrency): random behaviours
 _SIM = ("MC_Conserve.tla", "MC_Conserve_sim.cfg", 1800, ("-simulate", "num=40000", "-depth", "300"))
 _FAULT_T = ("MC_Conserve.tla", "MC_Conserve_fault_thorough.cfg", 3000)
+# kills inside the (non-atomic) recursive removal of a version's directory, delete --break-lock afterwards
+_TORN = ("MC_Conserve.tla", "MC_Conserve_torn.cfg", 3000)
 MODELS = {
     "C01": {"quick": [_C01, ("Restore.tla", "Restore_repo.cfg", 300)], "thorough": [_C01, _CRASH_T, ("Restore.tla", "Restore_repo.cfg", 300)]},
     "C02": {"quick": [_CRASH], "thorough": [_CRASH_T, _DEEP, _SIM]},
     "C03": {"quick": [_CRASH], "thorough": [_CRASH_T, _DEEP]},
     "C04": {"quick": [_FAULT], "thorough": [_FAULT_T]},
-    "C05": {"quick": [_CRASH, _FAULT], "thorough": [_CRASH_T, _FAULT_T, _SIM]},
+    "C05": {"quick": [_CRASH, _FAULT], "thorough": [_CRASH_T, _FAULT_T, _TORN, _SIM]},
     "C13": {"quick": [_CRASH], "thorough": [_CRASH_T, _FAULT_T]},
     "C14": {"quick": [_CRASH], "thorough": [_CRASH_T]},
     "C06": {"quick": [("MC_Conserve.tla", "MC_Conserve_conc.cfg", 1200)], "thorough": [("MC_Conserve.tla", "MC_Conserve_conc.cfg", 1200), _SIM]},
@@ -1287,6 +1337,7 @@ SPEC_MUTANTS = [
     ("MC_Interlock.tla", "Interlock_mutant_nocreatenew.cfg", "NoMixing"),
     ("MC_Conserve.tla", "MC_Conserve_mutant_combiner.cfg", "Inv_"),
     ("MC_Conserve.tla", "MC_Conserve_mutant_gcskip.cfg", "Inv_"),
+    ("MC_Conserve.tla", "MC_Conserve_mutant_blocksfirst.cfg", "Inv_"),
     ("MC_Conserve.tla", "MC_Conserve_mutant_conc_norecheck.cfg", "Inv_"),
     ("MC_Conserve.tla", "MC_Conserve_mutant_silenthunks.cfg", "Inv_ValidateAdequate"),
     ("Restore.tla", "Restore_mutant_modefirst.cfg", "Inv_MetadataExact"),
